@@ -67,14 +67,15 @@ theorem foldlM_append_run (cfg : Config) (inuse : List (Bytes × List User)) (fs
 
 /-- **The record of a layer after `ProbeAllLayerstate`**, when the order list has no
     duplicates: the layer's round ran exactly once, on the record the table had at the start
-    (with `Overlain` as `refreshMountInfo` sets it); a layer that entered in the error state
-    keeps that record. -/
+    (with `Overlain` as `refreshMountInfo` sets it); for a layer that entered in the error
+    state the round recorded mounts and processes and kept the state (fix e3cb7aa). -/
 theorem probeAll_record (cfg : Config) (inuse : List (Bytes × List User)) (d0 d : Defs) (w w' : World)
     (hrun : (probeAll cfg inuse d0).run.run w = (.ok d, w')) (hnd : d0.order.Nodup)
     (x : Bytes) (hx : x ∈ d0.order) (l0 : Layer) (hl0 : findLayer d0 x = some l0) :
     w' = w ∧ ∃ m, Kernel.probe w.kt = .ok m ∧ d.mounts = m ∧
-      (l0.state = S_error →
-        findLayer d x = some { l0 with overlain := (overlayLowerdirs m).contains (buildPath cfg l0) }) ∧
+      (l0.state = S_error → ∃ dk, dk.mounts = m ∧
+        findLayer d x = some (probeErr cfg inuse dk x
+          { l0 with overlain := (overlayLowerdirs m).contains (buildPath cfg l0) })) ∧
       (l0.state ≠ S_error → ∃ dk l, dk.mounts = m ∧
         probeLayer cfg inuse w.fs dk x
           { l0 with overlain := (overlayLowerdirs m).contains (buildPath cfg l0) } = .ok l ∧
@@ -98,7 +99,7 @@ theorem probeAll_record (cfg : Config) (inuse : List (Bytes × List User)) (d0 d
   rw [hsplit] at hloop
   obtain ⟨d1, w1, hpre, hrest⟩ := foldlM_append_run cfg inuse w.fs pre (x :: post) d0' d w w' hloop
   obtain ⟨hw1, -, hm1, hout1, -⟩ := probeLoop_inv cfg inuse w.fs (fun _ _ => True)
-    (fun _ _ _ _ _ _ _ => trivial) (fun _ _ _ => trivial) (fun _ _ _ _ _ _ => trivial)
+    (fun _ _ _ _ _ _ _ => trivial) (fun _ _ _ _ _ => trivial) (fun _ _ _ _ _ _ => trivial)
     pre d0' d1 w w1 hpre
   rw [hw1] at hrest
   have hf1 : findLayer d1 x
@@ -112,15 +113,31 @@ theorem probeAll_record (cfg : Config) (inuse : List (Bytes × List User)) (d0 d
       w' = w2 ∧ d.mounts = d2.mounts ∧ findLayer d x = findLayer d2 x := by
     intro d2 w2 h2
     obtain ⟨a, -, b, c, -⟩ := probeLoop_inv cfg inuse w.fs (fun _ _ => True)
-      (fun _ _ _ _ _ _ _ => trivial) (fun _ _ _ => trivial) (fun _ _ _ _ _ _ => trivial)
+      (fun _ _ _ _ _ _ _ => trivial) (fun _ _ _ _ _ => trivial) (fun _ _ _ _ _ _ => trivial)
       post d2 d w2 w' h2
     exact ⟨a, b, c x hxpost⟩
   by_cases hs : l0.state = S_error
   · have hs' : ((({ l0 with overlain := (overlayLowerdirs m).contains (buildPath cfg l0) } : Layer).state
         == S_error) = true) := by simp [hs]
     simp only [hs', ↓reduceIte] at hrest
-    obtain ⟨a, b, c⟩ := post_inv d1 w hrest
-    exact ⟨a, m, hm, b.trans (hm1.trans hm0), fun _ => c.trans hf1, fun h => absurd hs h⟩
+    obtain ⟨a, b, c⟩ := post_inv _ w hrest
+    have hn1 : (probeErr cfg inuse d1 x
+        { l0 with overlain := (overlayLowerdirs m).contains (buildPath cfg l0) }).name = x := by
+      have h1 : (probeErr cfg inuse d1 x
+          { l0 with overlain := (overlayLowerdirs m).contains (buildPath cfg l0) }).name = l0.name :=
+        (probeErr_key cfg inuse d1 x
+          { l0 with overlain := (overlayLowerdirs m).contains (buildPath cfg l0) }).1
+      have h2 : l0.name = x :=
+        findLayer_name d1 x { l0 with overlain := (overlayLowerdirs m).contains (buildPath cfg l0) } hf1
+      exact h1.trans h2
+    have hfl : findLayer d1 (probeErr cfg inuse d1 x
+        { l0 with overlain := (overlayLowerdirs m).contains (buildPath cfg l0) }).name
+        = some { l0 with overlain := (overlayLowerdirs m).contains (buildPath cfg l0) } := by
+      rw [hn1]; exact hf1
+    have hset := findLayer_setLayer d1 _ _ hfl
+    rw [hn1] at hset
+    exact ⟨a, m, hm, b.trans (hm1.trans hm0), fun _ => ⟨d1, hm1.trans hm0, c.trans hset⟩,
+      fun h => absurd hs h⟩
   · have hs' : ((({ l0 with overlain := (overlayLowerdirs m).contains (buildPath cfg l0) } : Layer).state
         == S_error) = false) := by simpa using hs
     simp only [hs', Bool.false_eq_true, ↓reduceIte] at hrest
@@ -173,6 +190,22 @@ theorem probeLayer_flags (cfg : Config) (inuse : List (Bytes × List User)) (fs 
       rw [a6]
       unfold buildPath
       simp only [r5']
+
+/-- the flags the round of a layer in the error state leaves (fix e3cb7aa): the same, the
+    state kept -/
+theorem probeErr_flags (cfg : Config) (inuse : List (Bytes × List User)) (d : Defs) (name : Bytes) (l0 : Layer) :
+    (probeErr cfg inuse d name l0).mounts = getMountAndSubmounts d.mounts (buildPath cfg l0) ∧
+    (probeErr cfg inuse d name l0).mountBusy = (l0.mountBusy || (usersOf inuse name).any fun u =>
+      [cfg.buildRoot, cfg.workdir, cfg.upperdir].any (sameDirOrDesc u.file)) ∧
+    (probeErr cfg inuse d name l0).nonMountBusy = (l0.nonMountBusy || (usersOf inuse name).any fun u =>
+      [cfg.buildRoot, cfg.workdir, cfg.upperdir].any (fun mp => !sameDirOrDesc u.file mp)) ∧
+    (probeErr cfg inuse d name l0).overlain = l0.overlain ∧ (probeErr cfg inuse d name l0).name = l0.name ∧
+    (probeErr cfg inuse d name l0).base = l0.base ∧ (probeErr cfg inuse d name l0).state = l0.state := by
+  obtain ⟨hr, hmb, hnb⟩ := Lc.Busy.classifyUsers_spec cfg (usersOf inuse name)
+    ({ l0 with mounts := getMountAndSubmounts d.mounts (buildPath cfg l0) } : Layer)
+  unfold Lc.Busy.SameRest at hr
+  obtain ⟨r1, r2, -, -, -, r6, r7, r8⟩ := hr
+  exact ⟨r8, hmb, hnb, r7, r1, r2, r6⟩
 
 /-! ### reading the flags on the kernel table -/
 
@@ -284,10 +317,10 @@ theorem childrenOf_mem (ls : List DLayer) (n kn : Bytes) (h : kn ∈ childrenOf 
 
 /-- **The record of a listed layer after `FindLayers` + `ProbeAllLayerstate`**, read on the
     installation (distinct layer names, printable kernel table): name and base are the
-    layerconfig's, `Overlain` is the specification's; a layer whose layerconfig had messages
-    is in the error state with no mounts listed and no process flag; any other layer lists
-    exactly the mounts at or below its build root, has `MountBusy` as the process
-    classification computes it, and a process flag whenever a process is attributed to it. -/
+    layerconfig's, `Overlain` is the specification's; the record lists exactly the mounts at
+    or below the layer's build root, has `MountBusy` as the process classification computes
+    it, and a process flag whenever a process is attributed to the layer — for EVERY listed
+    layer since fix e3cb7aa; a layer whose layerconfig had messages is in the error state. -/
 theorem getLayers_record (cfg : Config) (users : List (Bytes × List User)) (w w' : World) (d0 d : Defs)
     (hk : ∀ k ∈ w.kt.mnts, Lc.KernelWF.KWF k)
     (hnd : ((diskLayers (instOf cfg w)).map (·.name)).Nodup)
@@ -296,12 +329,11 @@ theorem getLayers_record (cfg : Config) (users : List (Bytes × List User)) (w w
     (n : Bytes) (dl : DLayer) (hd : findD (diskLayers (instOf cfg w)) n = some dl) :
     w' = w ∧ ∃ l, findLayer d n = some l ∧ l.name = n ∧ l.base = dl.file.base ∧
       l.overlain = overlain (instOf cfg w) n ∧
-      (dl.file.nmsgs > 0 → l.mounts = [] ∧ l.mountBusy = false ∧ l.state = S_error) ∧
-      (dl.file.nmsgs = 0 →
-        (l.mounts.length > 0 ↔ mountedAtOrBelow (instOf cfg w) n = true) ∧
-        l.mountBusy = modelMountBusy cfg users n ∧
-        (usersOf users n ≠ [] → l.mountBusy = true ∨ l.nonMountBusy = true) ∧
-        (∀ x ∈ l.mounts, atOrBelow (buildDir (instOf cfg w) n) x.mountpoint = true)) := by
+      (dl.file.nmsgs > 0 → l.state = S_error) ∧
+      (l.mounts.length > 0 ↔ mountedAtOrBelow (instOf cfg w) n = true) ∧
+      l.mountBusy = modelMountBusy cfg users n ∧
+      (usersOf users n ≠ [] → l.mountBusy = true ∨ l.nonMountBusy = true) ∧
+      (∀ x ∈ l.mounts, atOrBelow (buildDir (instOf cfg w) n) x.mountpoint = true) := by
   obtain ⟨-, hl0, hnm, hord⟩ := findLayers_lists cfg w w d0 hfl n dl hd
   have hndo := order_nodup_of_disk cfg w w d0 hfl hnd
   obtain ⟨hw, m, hm, hdm, herr, hok⟩ := probeAll_record cfg users d0 d w w' hpa hndo n hord _ hl0
@@ -314,21 +346,22 @@ theorem getLayers_record (cfg : Config) (users : List (Bytes × List User)) (w w
       = overlain (instOf cfg w) n := by
     rw [overlain_of_view w.kt.mnts m hv, hbp]; rfl
   refine ⟨hw, ?_⟩
-  by_cases hmsg : dl.file.nmsgs > 0
-  · have hs : (layerOfFile cfg n dl.file).state = S_error := by simp [layerOfFile, hmsg]
-    refine ⟨_, herr hs, rfl, rfl, hovl, fun _ => ⟨rfl, rfl, hs⟩, fun h0 => by omega⟩
-  · have hs : (layerOfFile cfg n dl.file).state ≠ S_error := by
-      simp [layerOfFile, hmsg, S_empty, S_error]
-    obtain ⟨dk, l, hdk, hp, hfl'⟩ := hok hs
-    obtain ⟨f1, f2, f3, f4, f5, f6⟩ := probeLayer_flags cfg users w.fs dk n _ l hp
-    rw [hdk] at f1
-    have f1' : l.mounts = getMountAndSubmounts m (buildDir (instOf cfg w) n) := f1
-    refine ⟨l, hfl', f5, f6, f4.trans hovl, fun h => absurd h hmsg, fun _ => ⟨?_, ?_, ?_, ?_⟩⟩
-    · rw [f1']
+  -- both kinds of round leave the same flags
+  have key : ∀ l : Layer,
+      l.mounts = getMountAndSubmounts m (buildDir (instOf cfg w) n) →
+      l.mountBusy = (false || (usersOf users n).any fun u =>
+        [cfg.buildRoot, cfg.workdir, cfg.upperdir].any (sameDirOrDesc u.file)) →
+      l.nonMountBusy = (false || (usersOf users n).any fun u =>
+        [cfg.buildRoot, cfg.workdir, cfg.upperdir].any (fun mp => !sameDirOrDesc u.file mp)) →
+      (l.mounts.length > 0 ↔ mountedAtOrBelow (instOf cfg w) n = true) ∧
+      l.mountBusy = modelMountBusy cfg users n ∧
+      (usersOf users n ≠ [] → l.mountBusy = true ∨ l.nonMountBusy = true) ∧
+      (∀ x ∈ l.mounts, atOrBelow (buildDir (instOf cfg w) n) x.mountpoint = true) := by
+    intro l f1 f2 f3
+    refine ⟨?_, ?_, ?_, ?_⟩
+    · rw [f1]
       exact mounts_nonempty_view hv _
-    · rw [f2]
-      show (false || _) = _
-      rw [Bool.false_or]
+    · rw [f2, Bool.false_or]
       rfl
     · intro hu
       rw [f2, f3]
@@ -339,11 +372,25 @@ theorem getLayers_record (cfg : Config) (users : List (Bytes × List User)) (w w
         · left; simp [hsd]
         · right; simp [hsd]
     · intro x hx
-      rw [f1'] at hx
+      rw [f1] at hx
       have := (Lc.TreeOrder.mem_getMountAndSubmounts m _ x).mp hx
       unfold atOrBelow
       rcases this.2 with h | h
       · simp [h]
       · simp [h]
+  by_cases hmsg : dl.file.nmsgs > 0
+  · have hs : (layerOfFile cfg n dl.file).state = S_error := by simp [layerOfFile, hmsg]
+    obtain ⟨dk, hdk, hfl'⟩ := herr hs
+    obtain ⟨f1, f2, f3, f4, f5, f6, f7⟩ := probeErr_flags cfg users dk n
+      { layerOfFile cfg n dl.file with
+        overlain := (overlayLowerdirs m).contains (buildPath cfg (layerOfFile cfg n dl.file)) }
+    rw [hdk] at f1
+    refine ⟨_, hfl', f5, f6, f4.trans hovl, fun _ => f7.trans hs, key _ f1 f2 f3⟩
+  · have hs : (layerOfFile cfg n dl.file).state ≠ S_error := by
+      simp [layerOfFile, hmsg, S_empty, S_error]
+    obtain ⟨dk, l, hdk, hp, hfl'⟩ := hok hs
+    obtain ⟨f1, f2, f3, f4, f5, f6⟩ := probeLayer_flags cfg users w.fs dk n _ l hp
+    rw [hdk] at f1
+    exact ⟨l, hfl', f5, f6, f4.trans hovl, fun h => absurd h hmsg, key l f1 f2 f3⟩
 
 end Lc.StateProbe
